@@ -1266,6 +1266,11 @@ class H2Stream:
             )
         ]
 
+        # An empty header list encodes to an empty block, which still needs
+        # its HEADERS frame.
+        if not header_blocks:
+            header_blocks = [b'']
+
         frames = []
         first_frame.data = header_blocks[0]
         frames.append(first_frame)
